@@ -102,7 +102,7 @@ func newUnit() *unit {
 	return &unit{fix: map[int]string{}, labels: map[string]int{}, sites: map[int]int{}}
 }
 
-func (u *unit) op(b ...byte) { u.code = append(u.code, b...) }
+func (u *unit) op(b ...byte)    { u.code = append(u.code, b...) }
 func (u *unit) opc(o vm.OpCode) { u.code = append(u.code, byte(o)) }
 func (u *unit) push(n uint64) {
 	b := new(big.Int).SetUint64(n).Bytes()
@@ -575,7 +575,9 @@ func (t *tracer) CaptureFault(evm *vm.EVM, pc uint64, op vm.OpCode, gas, cost ui
 	return nil
 }
 
-func (t *tracer) CaptureEnd(output []byte, gasUsed uint64, d time.Duration, err error) error { return nil }
+func (t *tracer) CaptureEnd(output []byte, gasUsed uint64, d time.Duration, err error) error {
+	return nil
+}
 
 // ---------------------------------------------------------------------------------------------- fixture
 
